@@ -1,6 +1,7 @@
 (* C23  Suppressions hide exactly the matching findings.
    Statements only; every proof is `exact <lemma>`. *)
-From CV Require Import Base.Bytes Base.Glob Base.GlobProofs Base.GlobTermination Supp.Defs Supp.Proofs Supp.ListProofs.
+From CV Require Import Base.Bytes Base.Glob Base.GlobProofs Base.GlobTermination Supp.Defs Supp.Proofs Supp.ListProofs Supp.ParseDefs Supp.ParseProofs.
+Local Open Scope N_scope.
 
 (* the declarative glob language: '*' any sequence, '?' one character *)
 Theorem C23_glob_language p n : glob_spec p n = true <-> gmatch p n.
@@ -47,6 +48,78 @@ Theorem C23_reported_iff_unsuppressed pm g ms st st' outs :
   outs = spec_forward pm g (l_nomsg st) (l_seen st) ms.
 Proof. intros H. exact (proj1 (logger_run_spec pm g ms st st' outs H)). Qed.
 Print Assumptions C23_reported_iff_unsuppressed.
+
+(* ---- how suppressions are given ---- *)
+
+(* [error id]:[filename]:[line]: what Suppression::toString prints, parseLine reads back.
+   Every clause of `printable` is forced (see Supp/ParseProofs.v); the last one is the caveat
+   of the code ("this only works with files which have an extension") *)
+Theorem C23_parse_line_print simp p : printable simp p -> parse_line simp (to_string p) = inl p.
+Proof. exact (parse_line_print simp p). Qed.
+Print Assumptions C23_parse_line_print.
+
+(* REFUTED without the caveat clause: file name c:/Makefile (no '.' after its last ':'),
+   no '#', no "//", no line break: "a:c:/Makefile" is rejected ("invalid line number") *)
+Theorem C23_parse_line_print_caveat_refuted :
+  snd (before_comment (to_string caveat_witness)) = false
+  /\ has_char NL (pl_file caveat_witness) = false
+  /\ to_string caveat_witness = [97;58;99;58;47;77;97;107;101;102;105;108;101]
+  /\ parse_line (fun x => x) (to_string caveat_witness) = inr EBadLine.
+Proof. exact parse_line_print_caveat_witness. Qed.
+Print Assumptions C23_parse_line_print_caveat_refuted.
+
+(* a suppressions file of any length: exactly the lines that are not blank and do not start
+   (after white space) with '#' or "//", split at '\n' and '\r', are parsed, in order;
+   the first failing line stops the file *)
+Theorem C23_parse_file_lines simp data :
+  parse_file simp data = add_lines simp [] (filter relevant (split_str NL (cr_to_nl data))).
+Proof. exact (parse_file_lines simp data). Qed.
+Print Assumptions C23_parse_file_lines.
+
+Theorem C23_parse_file_all_parsed simp ls acc out :
+  add_lines simp acc ls = (out, true) ->
+  exists ps, out = acc ++ ps /\ map (parse_line simp) ls = map (fun p => inl p) ps.
+Proof. exact (add_lines_all simp ls acc out). Qed.
+Print Assumptions C23_parse_file_all_parsed.
+
+(* an inline comment: keyword, id, attributes; else it is not a suppression *)
+Theorem C23_parse_comment_words body :
+  has_char SLASH body = false -> has_char SEMI body = false ->
+  parse_comment (47 :: 47 :: body) =
+  match words body with
+  | kw :: id :: ws => if existsb (str_eqb kw) KW
+                      then let '(sym, ok) := attrs ws [] true in Some (mkPC id sym [] ok)
+                      else None
+  | _ => None
+  end.
+Proof. exact (parse_comment_words body). Qed.
+Print Assumptions C23_parse_comment_words.
+
+(* // cppcheck-suppress[-begin|-end|-file|-macro] id [symbolName=sym] yields exactly id and sym *)
+Theorem C23_parse_comment_spec kw id sym :
+  In kw KW -> wordlike id -> (sym = [] \/ wordlike sym) ->
+  parse_comment (47 :: 47 :: 32 :: kw ++ 32 :: id ++ (if is_nil sym then [] else 32 :: SYMBOLNAME_EQ ++ sym))
+  = Some (mkPC id sym [] true).
+Proof. exact (parse_comment_spec kw id sym). Qed.
+Print Assumptions C23_parse_comment_spec.
+
+(* cppcheck-suppress[id1,id2,...] yields exactly the listed ids, any number of them *)
+Theorem C23_parse_multi_spec pre ids post :
+  has_char LBR pre = false -> ids <> [] ->
+  Forall (fun i => i <> [] /\ nosp i = true /\ has_char COMMA i = false /\ has_char RBR i = false) ids ->
+  parse_multi (pre ++ LBR :: join [COMMA] ids ++ RBR :: post) = (map (fun i => (i, [])) ids, true).
+Proof. exact (parse_multi_spec pre ids post). Qed.
+Print Assumptions C23_parse_multi_spec.
+
+(* premises are inhabited *)
+Example C23_ex_printable : printable (fun x => x) (mkPL [97] [98;46;99] 12 [115] false).   (* a:b.c:12 symbol s *)
+Proof. unfold printable. cbn. repeat split; try reflexivity; try discriminate. Qed.
+Example C23_ex_wordlike : wordlike [110;117;108;108;80;111;105;110;116;101;114].
+Proof. repeat split. discriminate. Qed.
+Example C23_ex_kw : In [99;112;112;99;104;101;99;107;45;115;117;112;112;114;101;115;115] KW.
+Proof. left. reflexivity. Qed.
+Example C23_ex_add_lines : add_lines (fun x => x) [] [[97]; [98;58;99;46;99]] = ([mkPL [97] [] NO_LINE [] false; mkPL [98] [99;46;99] NO_LINE [] false], true).
+Proof. vm_compute. reflexivity. Qed.
 
 (* non-vacuity: the machine answers on concrete inputs, both ways *)
 Example C23_glob_true : matchglob [42;63]%N [97]%N = Some true.        (* "*?" "a" *)
